@@ -237,7 +237,8 @@ class Sustain(Constraint):
                     if f.applies_to_trial(i//sustain_count + 1):
                         level = levels[i]
                         for j in range(1, sustain_count):
-                            if levels[i+j] != level:
+                            # the last group can be cut short by the end of the sequence
+                            if i+j < len(levels) and levels[i+j] != level:
                                 return False
         return True
 
